@@ -724,7 +724,8 @@ def _ord_on_symbols(ctx, rep, tier):
     for q, f in pipeline(model).items():
         if q.startswith("CodegenCtx.") or q.startswith("RegexMatch.") or q.startswith("BinaryRegexMatch.") or q.startswith("ParseCtx."):
             continue   # codegen filters End explicitly (C17.b); regex/front-end ord() is applied to characters of literals
-        for c in calls_in(f, nested=False):
+        lambdas = [c for lam in ast.walk(f) if isinstance(lam, ast.Lambda) for c in ast.walk(lam.body) if isinstance(c, ast.Call)]      # (a describing function handed to join / map)
+        for c in list(calls_in(f, nested=False)) + lambdas:
             if isinstance(c.func, ast.Name) and c.func.id == "ord" and c.args and isinstance(c.args[0], ast.Name):
                 n += 1
                 var = c.args[0].id
